@@ -73,6 +73,10 @@ STEPS = [("d", n, v) for n in DEF_NAMES for v in VALUES] + \
 EXTRA_STEPS = [("d", "$b", "x"), ("d", "${a}", "y"), ("d", "$$a", "x"),
                ("d", "a", "$b y"), ("d", "b", "${a}  z"), ("d", "c", ""),
                ("d", "A", "$c"), ("d", "c", "$c tail"), ("u", "{c}x"),
+               # a name position that expands to nothing (c is defined
+               # empty, ZCV_EMPTY is set and empty): no legal name
+               ("d", "$c", ""), ("d", "${c}", ""), ("d", "$c$c", ""),
+               ("d", "$(ZCV_EMPTY)", ""), ("d", "$c", "x"),
                # non-ASCII letters next to / inside names: U+212A, U+017F,
                # U+0130 and U+0131 case-fold into ASCII letters, the rest
                # are letters for Unicode-aware patterns only; none of them
